@@ -178,7 +178,7 @@ func TestRAC_C17(t *testing.T) {
 	rep.Programs += 5
 
 	// ---- join(split(s, d), d) == s
-	subjects := []string{"", "a", "a,b", "a,b,c", ",a", "a,", ",", ",,", "a,,b", "héllo wörld", "a b  c", "λ,μ", "one two", "a\tb", "x--y--z", "--", "abc"}
+	subjects := []string{"", "a", "a,b", "a,b,c", ",a", "a,", ",", ",,", "a,,b", "héllo wörld", "a b  c", "λ,μ", "one two", "a\tb", "x--y--z", "--", "abc", "a\xffb", "\xc3", "x\xe2\x82", "é\xff,λ"}
 	delims := []string{",", " ", "--", "", "b", "λ", ",,"}
 	for _, s := range subjects {
 		for _, d := range delims {
